@@ -360,4 +360,44 @@ theorem coupon_order (count sd : Nat) (e lb ub : K)
       · exact le_trans (le_of_lt hx0) (le_trans hcn (le_max_right _ _))
   · simp [hs] at hl
 
+theorem coupon_mono (count sd : Nat) (hsd : sd < 3) (lb ub lb' ub' : K)
+    (hl : @couponLowerBound K (fieldNum F) hllT count sd = some lb) (hu : @couponUpperBound K (fieldNum F) hllT count sd = some ub)
+    (hl' : @couponLowerBound K (fieldNum F) hllT count (sd + 1) = some lb')
+    (hu' : @couponUpperBound K (fieldNum F) hllT count (sd + 1) = some ub') :
+    lb' ≤ lb ∧ ub ≤ ub' := by
+  obtain ⟨_, _, _, _, c0, c3, _⟩ := rse_facts (K := K)
+  unfold couponLowerBound at hl hl'
+  unfold couponUpperBound at hu hu'
+  by_cases hs : sdOk sd = true
+  · obtain ⟨s1, s3⟩ := (sdOk_iff sd).mp hs
+    have hs' : sdOk (sd + 1) = true := (sdOk_iff _).mpr ⟨by omega, by omega⟩
+    simp only [hs, hs', Bool.not_true, Bool.false_eq_true, if_false, Option.map_eq_some_iff, nat_eq, lit_eq, litK_c1] at hl hu hl' hu'
+    obtain ⟨x, hx, rfl⟩ := hl
+    obtain ⟨x1, hx1, rfl⟩ := hl'
+    obtain ⟨x2, hx2, rfl⟩ := hu
+    obtain ⟨x3, hx3, rfl⟩ := hu'
+    rw [hx] at hx1 hx2 hx3
+    simp only [Option.some.injEq] at hx1 hx2 hx3
+    subst hx1; subst hx2; subst hx3
+    have hcn : (0 : K) ≤ count := Nat.cast_nonneg count
+    have hsd1 : (1 : K) ≤ sd := by exact_mod_cast s1
+    have hsd3 : ((sd + 1 : Nat) : K) ≤ 3 := by exact_mod_cast (show sd + 1 ≤ 3 by omega)
+    have hstep : (sd : K) * litK hllT.couponRse ≤ ((sd + 1 : Nat) : K) * litK hllT.couponRse := by push_cast; nlinarith
+    have hp : 0 < (sd : K) * litK hllT.couponRse := by positivity
+    have hq : ((sd + 1 : Nat) : K) * litK hllT.couponRse < 1 := by nlinarith
+    rcases le_or_gt 0 x with hx0 | hx0
+    · constructor
+      · exact max_le_max (div_le_div_of_nonneg_left hx0 (by linarith) (by linarith)) (le_refl _)
+      · exact max_le_max (div_le_div_of_nonneg_left hx0 (by linarith) (by linarith)) (le_refl _)
+    · -- a negative interpolated value never wins against the coupon count
+      have n1 : x / (1 + (sd : K) * litK hllT.couponRse) < 0 := div_neg_of_neg_of_pos hx0 (by linarith)
+      have n2 : x / (1 + ((sd + 1 : Nat) : K) * litK hllT.couponRse) < 0 := div_neg_of_neg_of_pos hx0 (by linarith)
+      have n3 : x / (1 - (sd : K) * litK hllT.couponRse) < 0 := div_neg_of_neg_of_pos hx0 (by linarith)
+      have n4 : x / (1 - ((sd + 1 : Nat) : K) * litK hllT.couponRse) < 0 := div_neg_of_neg_of_pos hx0 (by linarith)
+      simp only [fmax_eq]
+      rw [max_eq_right (le_trans (le_of_lt n1) hcn), max_eq_right (le_trans (le_of_lt n2) hcn),
+        max_eq_right (le_trans (le_of_lt n3) hcn), max_eq_right (le_trans (le_of_lt n4) hcn)]
+      exact ⟨le_refl _, le_refl _⟩
+  · simp [hs] at hl
+
 end DS.Bounds
